@@ -229,6 +229,14 @@ def _run(plan, ctx, child):
     d2, p2 = plain_digest(cfg, market, uuid_seed=us + 1)     # another stream of order ids
     variants.append(("same_process_again", d2, p2))
     ctx.fault("same_process_again")
+    # (f) twice more, re-using the user-level input objects (universe, alpha model and its weights dict)
+    if cfg["alpha"]["kind"] in ("fixed", "single"):
+        shared = {}
+        for k in range(2):
+            o = sl.run_session(cfg, market, monitors=True, uuid_seed=us + 10 + k, shared_inputs=shared)
+            dk, pk = result_digest(o)
+            variants.append(("same_process_reusing_universe_and_alpha_objects_run_%d" % (k + 1), dk, pk))
+        ctx.fault("user_input_objects_reused")
     # (b) shared, memoised data source with a history of other sessions and ad-hoc queries + cache clears
     dirpath = mk.scratch_dir()
     try:
